@@ -24,6 +24,7 @@ import (
 	"unicode/utf8"
 
 	"github.com/itchyny/gojq"
+	"github.com/itchyny/gojq/cli"
 
 	"verifharness/common"
 )
@@ -874,7 +875,7 @@ func main() {
 	}
 
 	// ---- keys, iteration order, to_entries, Marshal key order on objects
-	keyOr := ctx.NewOracle("key-order", "on objects: `keys` = sort.Strings of the keys (bytewise = the order of strings), `[.[]]`, `to_entries` and the member order printed by gojq.Marshal all follow it, and gojq.Compare on the key strings is strictly increasing along it; distinct = distinct objects")
+	keyOr := ctx.NewOracle("key-order", "on objects: `keys` = sort.Strings of the keys (bytewise = the order of strings), `[.[]]`, `to_entries` and the member order printed by gojq.Marshal and by the command's encoder (compact and indented) all follow it, and gojq.Compare on the key strings is strictly increasing along it; distinct = distinct objects")
 	keySeen := map[string]bool{}
 	var objs []any
 	for _, v := range uni {
@@ -887,7 +888,14 @@ func main() {
 		m := map[string]any{}
 		for j := 0; j < n; j++ {
 			var k string
-			if r.Chance(1, 3) {
+			if r.Chance(1, 4) {
+				// code points on both sides of the surrogate range: UTF-8 (= code point) order and
+				// UTF-16 code unit order differ exactly here
+				k = common.Pick(r, []string{"\U00010000", "\uE000", "\uFFFF", "😀", "ｚ", "\uD7FF", "a😀", "aｚ", "\U0010FFFF", "\uFB01", "𝒳", "\uF8FF"})
+				if r.Chance(1, 3) {
+					k += common.Pick(r, []string{"", "a", "0", "😀"})
+				}
+			} else if r.Chance(1, 3) {
 				k = common.RandKey(r, common.GenOpts{SmallKeys: true})
 			} else {
 				k = common.RandString(r, i%3 == 0)
@@ -946,6 +954,19 @@ func main() {
 				ctx.Violate("keyorder:marshal:"+common.Canon(m), fmt.Sprintf("gojq.Marshal prints members in order %q, sorted order is %q", got, ks), map[string]any{"input": common.Canon(m), "observed": string(b), "expected_keys": ks})
 			}
 			keyOr.Distribution["marshal"]++
+			// the command's own encoder (cli/encoder.go), compact and indented
+			for _, ind := range []int{-1, 2} {
+				cb, err := cli.VerifEncode(m, false, ind)
+				if err != nil {
+					continue
+				}
+				got, err := topLevelKeys(cb)
+				if err != nil || strings.Join(got, "\x00") != strings.Join(ks, "\x00") || len(got) != len(ks) {
+					ctx.Violate("keyorder:cli-encoder:"+common.Canon(m), fmt.Sprintf("the command's encoder prints members in order %q, sorted order is %q", got, ks), map[string]any{"input": common.Canon(m), "observed": string(cb), "expected_keys": ks, "indent": ind,
+						"cmd": "gojq -c . (or gojq .) on the input object"})
+				}
+				keyOr.Distribution["cli-encoder"]++
+			}
 		}
 		keyOr.Distribution[fmt.Sprintf("keys=%d", len(ks))]++
 	}
